@@ -160,6 +160,29 @@ CHECKS = {
                     "or a connection that stopped making progress because of others."),
         level_note="Schedules are sampled, not enumerated: a violation needing one specific preemption can be missed.",
     ),
+    "C09": dict(
+        inpkg="internal/streams/dns", src="inpkg_c09",
+        level="exploration",
+        technique="property-based testing (rapid) of every request type through the real serializers and real miekg/dns Pack/Unpack; round-trip + DNS validity oracle",
+        rule=("case = (command version/set-options/packet/downstream-codec probe/upstream-codec probe/fragment-size probe, field "
+              "values: user id 0-1295, seq/ack 0-65535, tri-state flags, every codec code, fragment sizes over the uint32 range "
+              "(0xFFFFFFFF excluded: it encodes 'not set'), stock and generated <=59-byte probe patterns over the codec's alphabet, "
+              "client version; upstream codec in {Base32,Base64,Base64u,Base85,Base91,Base128}; tunnel domain of 1-4 labels and "
+              "3-120 characters in mixed case; query type; packet payload length 0..M where M is the fragment size the client's "
+              "own getUpstreamMtu computes for (domain, codec), biased to M-8..M). A second test walks every payload length "
+              "0..M for 5 domains x 6 codecs. Pipeline/oracle: client EncodeDnsRequestWithParams succeeds -> exactly one "
+              "question, every wire label <= 63 octets, name <= 253 -> Msg.Pack -> Msg.Unpack -> ComposeRequest -> server "
+              "DecodeDnsRequest -> same dynamic type and equal fields. non-trivial = payload >= M-8 or a probe pattern with "
+              "characters that DNS presentation format escapes; distinct = distinct (command, codec, domain, fields)"),
+        assumptions=["random cache-busting characters are produced by socketace itself and not compared", "the server is configured with the lower-cased domain"],
+        quick=dict(run=".", checks=20000, timeout=600),
+        thorough=dict(run=".", checks=250000, timeout=3000, shards=8),
+        design_ref="DESIGN.md 2/C09",
+        level_text=("Generated requests of every command through the real client serializer, real DNS wire packing and the real server "
+                    "deserializer. A green run means every generated request within the client's own size budget was a valid DNS "
+                    "question and was recognised with identical fields."),
+        level_note="Trusts miekg/dns Pack/Unpack as the wire; in-package only to call getUpstreamMtu.",
+    ),
     "C14": dict(
         pkg="c14",
         level="fault_enumeration",
